@@ -488,12 +488,87 @@ def r15f(ctx, run):
                   % (f.qual, how, fields or sorted(tags)))
 
 
+def r15g(ctx, run):
+    """an expression index means nothing without the location whose body it indexes: wherever a function fetches an expression node from
+    `world_bodies[L.file()][e]` (or `self.bodies[e]`, the body of self.loc) and then looks one of the node's sub-expressions up in the type tables,
+    the area it looks in (`self.tys[X]`) is the area of that same location L - resolved lexically.  With `self.tys[self.loc]` for a node of another
+    location the lookup answers for whatever expression of the function under inference happens to have that number (a constant imported through a
+    second file evaluated to a third file's value: `[other.N]i32` got the wrong length)."""
+    import prov
+    G = "hir_ty/src/globals.rs"
+    NOISE = ("elem", "branch", "indexed", "const", "arith")
+
+    def origin(tags):
+        t = {x for x in tags if x not in NOISE and not x.startswith(("field:Some", "field:Ok", "expr:")) and x not in ("m:get", "m:copied", "m:cloned", "m:unwrap", "m:last_mut", "m:pop", "m:clone")}
+        if "m:.loc" in t and "param:self" in t:
+            return "self.loc"
+        ps = sorted(x for x in t if x.startswith("param:") and x != "param:self")
+        if ps:
+            return ps[0]
+        return "/".join(sorted(t))[:60] or "?"
+    n = 0
+    for g in ctx.syn.fns_in(G) + ctx.syn.fns_in("hir_ty/src/lib.rs"):
+        if g.body is None or g.in_test or "self.tys[" not in canon(g.body):
+            continue
+        P = prov.Prov(g)
+
+        def on(node, sc, g=g, P=P):
+            nonlocal n
+            # self.tys[X][Y]  |  self.tys[X].meta_ty(Y) / .expr_tys[Y] / .expr_tys.get(Y) ...
+            X = Y = None
+            if node.get("k") == "index" and node["e"].get("k") == "index" and canon(node["e"]["e"]) == "self.tys":
+                X, Y = node["e"]["i"], node["i"]
+            elif node.get("k") == "mcall" and node["m"] in ("meta_ty", "get", "contains_idx") and node["a"]:
+                r = node["r"]
+                if r.get("k") == "field":
+                    r = r["e"]
+                if r.get("k") == "index" and canon(r["e"]) == "self.tys":
+                    X, Y = r["i"], node["a"][0]
+            elif node.get("k") == "index" and node["e"].get("k") == "field" and node["e"]["e"].get("k") == "index" and canon(node["e"]["e"]["e"]) == "self.tys":
+                X, Y = node["e"]["e"]["i"], node["i"]
+            if X is None:
+                return
+            y = Y
+            while y.get("k") in ("ref", "un", "paren"):
+                y = y["e"]
+            if y.get("k") != "path":
+                return
+            b, _ = sc.lookup(y["p"])
+            if b is None or b["how"] not in ("pat", "let") or not b.get("via") or b["src"][0] is None:
+                return
+            scrut, sscope = b["src"]
+            z = scrut
+            while z.get("k") in ("ref", "un", "paren"):
+                z = z["e"]
+            # the node the sub-expression was taken out of
+            home = None
+            if z.get("k") == "index" and z["e"].get("k") == "index" and canon(z["e"]["e"]) == "self.world_bodies":
+                fi = z["e"]["i"]
+                if fi.get("k") == "mcall" and fi["m"] == "file":
+                    home = origin(P.tags(fi["r"], sscope))
+            elif z.get("k") == "index" and canon(z["e"]) == "self.bodies":
+                home = "self.loc"
+            if home is None:
+                return
+            n += 1
+            used = origin(P.tags(X, sc))
+            run.check(used == home, g.site(node["ln"]), "%s: `%s` is looked up in the area of %s, the location its node was fetched from" % (g.qual, y["p"], home), g.qual,
+                      "area-of:%s" % y["p"], g.file, node["ln"],
+                      "%s takes `%s` out of a node of the body of %s but looks it up in the type tables of %s: expression numbers are per body, so the answer belongs to an unrelated "
+                      "expression (a const reached through an imported file is evaluated with another file's value, or the compiler panics on a number that has no type)"
+                      % (g.qual, y["p"], home, used))
+        P.visit(on)
+    if n < 6:
+        raise LookupError("sub-expression lookups with a known home location: %d" % n)
+
+
 def rules(ctx):
     return [
         Rule("R15.a", "every const position asks get_const first; non-const is reported and not evaluated", 7, r15a),
         Rule("R15.b", "get_const's classification per expression kind follows the documented rule (mutable/extern/valueless/transitive)", 60, r15b),
         Rule("R15.d", "finish_body: no normal return bypasses the constness test of a global's body (must-pass-through on MIR)", 1, r15d),
         Rule("R15.e", "classifier and evaluator follow a global reference from the location of the expression itself, not from the location under inference", 3, r15e),
+        Rule("R15.g", "a sub-expression is looked up in the type tables of the location its node was fetched from (lexically resolved)", 6, r15g),
         Rule("R15.f", "a comptime parameter evaluates to the comptime argument at its comptime_idx (lexically resolved index of every comptime_args() lookup)", 2, r15f),
         Rule("R15.c", "classifier and evaluator agree: Const integer-capable kinds have value-producing const_data arms", 8, r15c),
     ]
